@@ -232,6 +232,11 @@ def build_cases(quick):
     for N, npri in ((70001, None), (70001, 40000), (90000, 66000)):
         for nb in (None, 2, 3):
             fan.append(dict(kind="fanout", N=N, pool="serial", size=1, n_batches=nb, n_prior=npri, idx=None))
+    # an index array of well over 2 x 65536 rows split into two batches (per-task size caps inside the fan-out)
+    NBIG = 140003
+    bigidx = [(7 * i + 3) % NBIG for i in range(NBIG)]
+    for pool, size in (("serial", 1), ("model", 2)):
+        fan.append(dict(kind="fanout", N=NBIG, pool=pool, size=size, chunksize=1, reverse=False, n_batches=2, n_prior=None, idx=bigidx))
     # index arrays of other integer types (unsigned, 32-bit), containing zeros and repeats of large values
     for dt in ("uint8", "uint16", "uint32", "uint64", "int32", "int16"):
         for idx in ([5, 3, 7, 0, 6], [0, 0, 4], [7, 1]):
